@@ -400,8 +400,19 @@ def number_sources(fnode):
 MENU = ("y", "-y", "0", "1", "-1")
 
 
+def _mv(m, t):
+    """model value of a real term as a string sympy.Rational understands"""
+    v = m.eval(t, True)
+    if z3.is_rational_value(v):
+        return str(v.as_fraction())
+    try:
+        return v.as_decimal(12).rstrip("?")
+    except Exception:
+        return str(v)
+
+
 def obligations(fnode, symbols_src):
-    """[(name, status, detail, lineno, seconds)] with status proved / refuted / unknown / unsupported"""
+    """[(name, status, detail, lineno, seconds, query)] with status proved / refuted / unknown / unsupported; query = payload entry for harness/rt_subst.py (replay on the real objects) or None"""
     import time
     if fnode.name != "sympy_simplify":
         return []
@@ -409,7 +420,7 @@ def obligations(fnode, symbols_src):
     t1, t2 = extract(fnode)
     out = []
     if not t1 and not t2:
-        return [("sympy_simplify builds its substitution tables in a variable `all_expr`", "unsupported", "no table found", fnode.lineno, 0.0)]
+        return [("sympy_simplify builds its substitution tables in a variable `all_expr`", "unsupported", "no table found", fnode.lineno, 0.0, None)]
     # ---------------------------------------------------------------- table 1
     keys1 = _param_keys([r[1] for r in t1])
     y = z3.Real("y")
@@ -417,7 +428,7 @@ def obligations(fnode, symbols_src):
         t0 = time.time()
         src = ast.unparse(e)
         if not (isinstance(fl, ast.Constant) and fl.value in (0, 1)) or len(keys1) != 2:
-            out.append(("table 1 row %d `%s`: flag is the literal 0 or 1 and the table speaks about two parameters" % (k, src), "unsupported", ast.unparse(fl), ln, 0.0))
+            out.append(("table 1 row %d `%s`: flag is the literal 0 or 1 and the table speaks about two parameters" % (k, src), "unsupported", ast.unparse(fl), ln, 0.0, None))
             continue
         flag = fl.value
         A, B = z3.Real("A"), z3.Real("B")
@@ -436,27 +447,29 @@ def obligations(fnode, symbols_src):
                         continue
                     wit.append(((wa, wb), w))
         except Untranslatable as ex:
-            out.append(("table 1 row %d `%s`" % (k, src), "unsupported", str(ex), ln, 0.0))
+            out.append(("table 1 row %d `%s`" % (k, src), "unsupported", str(ex), ln, 0.0, None))
             continue
         nz = [A != 0, B != 0, E_BASE > 1]
         if flag == 1:
             st, m = _solve(z3.Implies(gen.dfn, nonneg_goal(gen)), nz)
             out.append(("table 1 row %d `%s` (replaced by an absolute value): the expression is never negative" % (k, src), st,
-                        ("takes a negative value at A = %s, B = %s" % (m.eval(A, True), m.eval(B, True))) if m is not None else None, ln, time.time() - t0))
+                        ("takes a negative value at A = %s, B = %s" % (m.eval(A, True), m.eval(B, True))) if m is not None else None, ln, time.time() - t0,
+                        {"kind": "nonneg1", "expr": src, "A": _mv(m, A), "B": _mv(m, B)} if m is not None else None))
         t0 = time.time()
         hyp = [y != 0, E_BASE > 1] + ([y > 0] if flag == 1 else [])
         goal = z3.Or(*[z3.And(w.dfn, w.term == y) for _, w in wit]) if wit else z3.BoolVal(False)
         st, m = _solve(goal, hyp)
         what = "every positive value" if flag == 1 else "every real value (other than 0)"
         out.append(("table 1 row %d `%s` (replaced by %s): the expression attains %s" % (k, src, "an absolute value" if flag else "a parameter", what), st if st != "refuted" else "unknown",
-                    ("no witness in the menu for y = %s" % m.eval(y, True)) if m is not None else None, ln, time.time() - t0))
+                    ("no witness in the menu for y = %s" % m.eval(y, True)) if m is not None else None, ln, time.time() - t0,
+                    {"kind": "range1", "expr": src, "y": _mv(m, y)} if m is not None else None))
     # ---------------------------------------------------------------- table 2
     srcs = number_sources(fnode)
     keys2 = _param_keys([x for r in t2 for x in r[1:5] if x is not None])
     for k, (ln, P, R, fl, Istr, nv, nsrc) in enumerate(t2):
         t0 = time.time()
         if P is None or len(keys2) != 1:
-            out.append(("table 2 row %d: a row [pattern, replacement, flag, str({parameter: inverse})] over one parameter" % k, "unsupported", "shape", ln, 0.0))
+            out.append(("table 2 row %d: a row [pattern, replacement, flag, str({parameter: inverse})] over one parameter" % k, "unsupported", "shape", ln, 0.0, None))
             continue
         srcP = ast.unparse(P)
         inv = None
@@ -464,14 +477,14 @@ def obligations(fnode, symbols_src):
                 len(Istr.args[0].keys) == 1 and Istr.args[0].keys[0] is not None and ast.unparse(Istr.args[0].keys[0]) == keys2[0]:
             inv = Istr.args[0].values[0]
         if inv is None:
-            out.append(("table 2 row %d `%s`: the recorded map is str({parameter: expression})" % (k, srcP), "unsupported", ast.unparse(Istr)[:80], ln, 0.0))
+            out.append(("table 2 row %d `%s`: the recorded map is str({parameter: expression})" % (k, srcP), "unsupported", ast.unparse(Istr)[:80], ln, 0.0, None))
             continue
         a = z3.Real("a")
         numvars, hyps = {}, [a != 0, E_BASE > 1]
         if nv is not None:
             kind = srcs.get(nsrc)
             if kind not in ("even", "odd", "number"):
-                out.append(("table 2 row %d `%s`: the numbers it ranges over (`%s`) are the function's numbers / its even / its odd integers" % (k, srcP, nsrc), "unsupported", str(kind), ln, 0.0))
+                out.append(("table 2 row %d `%s`: the numbers it ranges over (`%s`) are the function's numbers / its even / its odd integers" % (k, srcP, nsrc), "unsupported", str(kind), ln, 0.0, None))
                 continue
             nvar = z3.Real("n")
             numvars[nv] = V(nvar, par=(kind if kind in ("even", "odd") else None))
@@ -483,20 +496,23 @@ def obligations(fnode, symbols_src):
             # P(I(a)): the parameter is bound to the value of the inverse
             PI = Tr(lambdas, {keys2[0]: Iv}, numvars).tr(P)
         except Untranslatable as ex:
-            out.append(("table 2 row %d `%s`" % (k, srcP), "unsupported", str(ex), ln, 0.0))
+            out.append(("table 2 row %d `%s`" % (k, srcP), "unsupported", str(ex), ln, 0.0, None))
             continue
         nm = "table 2 row %d `%s` -> `%s` with map `%s`" % (k, srcP, ast.unparse(R), ast.unparse(inv))
         st, m = _solve(z3.Implies(Iv.dfn, z3.And(PI.dfn, eq_goal(PI, Ra))), hyps)
         out.append((nm + ": substituting the map into the pattern gives the replacement", st if (st != "refuted" or not (PI.opaque or Ra.opaque) or (PI.pw is not None and Ra.pw is not None and same(PI.pw[1], Ra.pw[1]))) else "unknown",
-                    ("fails at a = %s%s" % (m.eval(a, True), (", n = %s" % m.eval(z3.Real("n"), True)) if nv else "")) if m is not None else None, ln, time.time() - t0))
+                    ("fails at a = %s%s" % (m.eval(a, True), (", n = %s" % m.eval(z3.Real("n"), True)) if nv else "")) if m is not None else None, ln, time.time() - t0,
+                    {"kind": "ident2", "P": srcP, "R": ast.unparse(R), "I": ast.unparse(inv), "parity": srcs.get(nsrc) if nv else None, "numvar": nv,
+                     "a": _mv(m, a), "n": _mv(m, z3.Real("n")) if nv else None} if m is not None else None))
         t0 = time.time()
         is_abs = isinstance(R, ast.Call) and ast.unparse(R.func) == "sympy.Abs"
         if is_abs:
             st, m = _solve(z3.Implies(Pa.dfn, nonneg_goal(Pa)), hyps)
             out.append((nm + ": the pattern is never negative (it is replaced by an absolute value)", st,
-                        ("negative at a = %s" % m.eval(a, True)) if m is not None else None, ln, time.time() - t0))
+                        ("negative at a = %s" % m.eval(a, True)) if m is not None else None, ln, time.time() - t0,
+                        {"kind": "nonneg2", "P": srcP, "parity": srcs.get(nsrc) if nv else None, "numvar": nv, "a": _mv(m, a), "n": _mv(m, z3.Real("n")) if nv else None} if m is not None else None))
         elif not (ast.unparse(R) == keys2[0]):
-            out.append((nm + ": the replacement is the parameter or its absolute value", "unsupported", ast.unparse(R), ln, 0.0))
+            out.append((nm + ": the replacement is the parameter or its absolute value", "unsupported", ast.unparse(R), ln, 0.0, None))
         t0 = time.time()
         # (iii) the map is defined for every positive parameter, provided the divisors built from the table's number are non-zero (the code's `zoo` guard)
         divs = []
@@ -508,7 +524,7 @@ def obligations(fnode, symbols_src):
                 except Untranslatable:
                     pass
         st, m = _solve(z3.Implies(z3.And(a > 0, *divs), Iv.dfn), hyps)
-        out.append((nm + ": the map is defined for every positive parameter", st, None, ln, time.time() - t0))
+        out.append((nm + ": the map is defined for every positive parameter", st, None, ln, time.time() - t0, None))
     return out
 
 
